@@ -387,16 +387,17 @@ class FitEngine(Engine):
                        background={"as": "name", "models": ["linear"]}, peak={"as": "name", "models": ["gaussian"]},
                        fit_parameters=None, fit_requirements=None)
             half = self.SWEEP_RUNS // 2
+            depth = "all"  # ~400 line events per call: every line boundary is affordable at both tiers
             if i < half:
                 # two peaks; the other caller fits the same kind of spectrum with other noise
-                scn["interleave"] = {"sweep": [i, half], "other_seed": 99}
+                scn["interleave"] = {"sweep": [i, half], "other_seed": 99, "depth": depth}
             else:
                 # one peak; the other caller makes the very same call on the same data (two workers
                 # given the same input): whatever one caller leaves in shared state is exactly
                 # what the other is about to look up
                 scn["truth"]["peaks"] = scn["truth"]["peaks"][:1]
                 scn["estimates"] = scn["estimates"][:1]
-                scn["interleave"] = {"sweep": [i - half, half], "other_seed": scn["truth"]["seed"]}
+                scn["interleave"] = {"sweep": [i - half, half], "other_seed": scn["truth"]["seed"], "depth": depth}
             return scn
         scn = generate(rng, tier, i)
         if rng.random() < 0.12:
@@ -466,7 +467,10 @@ class FitEngine(Engine):
         totals = {"line": counter.ordinal, "site": len(counter.site_order)}
         if il.get("sweep"):
             part, of = il["sweep"]
-            pts = [("site", k) for k in range(totals["site"]) if k % of == part]
+            if il.get("depth") == "all":  # thorough: every line boundary of _fit_peaks.py frames
+                pts = [("line", k) for k in range(totals["line"]) if k % of == part]
+            else:
+                pts = [("site", k) for k in range(totals["site"]) if k % of == part]
             ctx.count("interleaving_points_enumerated", len(pts))
         else:
             where = il.get("where", "site")
